@@ -15,7 +15,7 @@ func main() {
 			"(statement, single, parenthesised, middle, last of argument list/return list/table constructor/multiple assignment), select/unpack/arg; traces compared with the reference evaluator; " +
 			"non-trivial = at least 5 emitted rows or an error outcome; distinct by Gallina term",
 		Modes:     []luaprop.Mode{{Name: "calls", Features: f, Weight: 5}, {Name: "calls-bigk", Features: bigk(f), Weight: 1}},
-		NQuick:    220,
+		NQuick:    400,
 		NThorough: 6000,
 		Corpus:    corpus,
 		Extra:     tailCalls,
